@@ -164,6 +164,8 @@ def run(ctx):
     from pv.ref import c53_fock as F
 
     warnings.filterwarnings("ignore")
+    from pv.ref.c53_limit import limit_repeats
+    limit_repeats(ctx)
     ISO = {}
 
     def iso(kind, nm, d):
